@@ -31,6 +31,7 @@ import (
 	"github.com/TarsCloud/TarsGo/tars/protocol/res/basef"
 	"github.com/TarsCloud/TarsGo/tars/protocol/res/requestf"
 	tarsreg "github.com/TarsCloud/TarsGo/tars/registry"
+	"github.com/TarsCloud/TarsGo/tars/util/current"
 	"github.com/TarsCloud/TarsGo/tars/util/tools"
 )
 
@@ -181,6 +182,8 @@ type c08Case struct {
 	Class     string   `json:"class"`
 	Skipped   bool     `json:"skipped,omitempty"` // not run (an earlier genRequestID case hung)
 	Push       bool   `json:"push,omitempty"`        // trace: proxy 0 has a push callback; id-0 packets on its connections must reach it
+	Opts       bool   `json:"opts,omitempty"`        // trace: callers carry per-call options through the context (client timeout - the same value for all of them -, hash, dyeing key) and status / context maps
+	C0         int32  `json:"c0"`                    // trace, observed: the id counter when the scenario started (after positioning)
 	QueueMax   int    `json:"queue_max,omitempty"`   // trace: ObjQueueMax during the scenario (0 = default 100000): callers beyond it are rejected with 'invoke queue is full'
 	Pings      int    `json:"pings,omitempty"`       // trace: keep-alive pings triggered per proxy while each round is outstanding; the peer acknowledges them (echo of the id, normal type, poisoned payload)
 	PingAt     bool   `json:"ping_at,omitempty"`     // trace: position the id counter so that a call of the first round holds the id equal to the proxy's timeout in ms
@@ -197,6 +200,10 @@ const c08Poison = 0xFFFFFFFF
 // c08Patience is the deadline of a caller that is going to be answered: far beyond anything a loaded machine needs (the
 // scripted server answers within milliseconds of having collected the round's requests).
 const c08Patience = 12 * time.Second
+
+// c08OptTimeoutMs is the per-call client timeout (ms) that callers with options put into their context: the same value
+// for all of them, beyond the patience of any caller.
+const c08OptTimeoutMs = 15000
 
 func c08Payload(k uint32, variant uint32) []byte {
 	b := make([]byte, 8)
@@ -589,6 +596,7 @@ func c08RunTrace(c *c08Case) []Failure {
 	if c.SetID {
 		tars.VerifC08SetMsgID(c.Start)
 	}
+	c.C0 = tars.VerifC08MsgID()
 	type outc struct {
 		got    bool // a two-way call came back without an error
 		pay    uint64
@@ -667,7 +675,26 @@ func c08RunTrace(c *c08Case) []Failure {
 				if c.Acts[k] == "ow" {
 					ptype = byte(basef.TARSONEWAY)
 				}
-				err := sp.TarsInvoke(ctx, ptype, "echo", c08Payload(uint32(k), 0), nil, nil, &resp)
+				var status, reqCtx map[string]string
+				if c.Opts { // per-call options travel in the context; none of them has anything to do with the request id
+					ctx = current.ContextWithClientCurrent(current.ContextWithTarsCurrent(ctx))
+					switch k % 5 {
+					case 0:
+						current.SetClientTimeout(ctx, c08OptTimeoutMs)
+					case 1:
+						current.SetClientHash(ctx, int(tars.ModHash), uint32(k))
+					case 2:
+						current.SetClientTimeout(ctx, c08OptTimeoutMs)
+						current.SetClientHash(ctx, int(tars.ConsistentHash), 7)
+					case 3:
+						current.SetDyeingKey(ctx, "verif-dye")
+						status = map[string]string{"verif": "status"}
+					case 4:
+						current.SetClientTimeout(ctx, 0)
+						reqCtx = map[string]string{"verif": "context"}
+					}
+				}
+				err := sp.TarsInvoke(ctx, ptype, "echo", c08Payload(uint32(k), 0), status, reqCtx, &resp)
 				o := outc{}
 				b := tools.Int8ToByte(resp.SBuffer)
 				switch {
@@ -1018,6 +1045,16 @@ func c08RunTrace(c *c08Case) []Failure {
 	if wantedPings > 0 && c.NPings == 0 && c.QueueMax == 0 { // (doKeepAlive itself stands back while the queue is full)
 		fs = append(fs, Failure{Sig: "ping/no-ping-on-wire", Desc: fmt.Sprintf("%d keep-alive pings per proxy and round were triggered (%d doKeepAlive calls) but the scripted server received none", c.Pings, wantedPings)})
 	}
+	// every id a call or ping carries was drawn from the generator during the scenario: in the forward order of the
+	// counter it lies after the counter's value at the start and not after its value when the event was logged
+	for _, e := range c.Events {
+		if e.Kind == "reg" || e.Kind == "ping" {
+			if d, w := uint32(e.ID-c.C0), uint32(e.Ctr-c.C0); d == 0 || d > w {
+				fs = append(fs, Failure{Sig: "call/id-not-drawn-from-the-generator", Desc: fmt.Sprintf("a %s event carries request id %d, but the id counter stood at %d when the scenario started and at %d when the event was logged: the id is not one of the values the generator handed out in between", e.Kind, e.ID, c.C0, e.Ctr)})
+				break
+			}
+		}
+	}
 	// the id counter only moves forward (a drawn id is never handed back); it falls only at the wrap
 	{
 		maxi := int64(tars.VerifC08MaxInt32())
@@ -1225,6 +1262,175 @@ func c08RunWrap(c *c08Case) []Failure {
 	return fs
 }
 
+// c08RunBurst: high contention on one adapter. W callers on one proxy (one adapter, one connection: a warm-up call comes
+// first) make R calls each, in lock step: the scripted peer waits until it holds a request of every caller that is still
+// running and answers the whole batch in ONE write, echoing id and payload, so that the W replies are decoded back-to-back and
+// handed to W callers at the same moment on different CPUs. Every caller must get the response that carries ITS id and ITS
+// payload. Monitor only (thousands of calls; nothing here that the model could say more about than C08_routing).
+func c08RunBurst(c *c08Case) []Failure {
+	if c.Procs > 0 {
+		defer runtime.GOMAXPROCS(runtime.GOMAXPROCS(c.Procs))
+	}
+	ln, err := net.Listen("tcp", "127.0.0.1:0")
+	if err != nil {
+		fatal("listen: %v", err)
+	}
+	defer ln.Close()
+	obj := c08NextObj("C08Burst")
+	sp := c08Proxy(obj, ln.Addr().(*net.TCPAddr).Port)
+	defer tars.VerifC08CloseAdapters(sp)
+	var idMu sync.Mutex
+	idOf := map[uint64]int32{} // payload -> id given to the call (seen by the pre client filter)
+	c08SetHook(obj, func(req *requestf.RequestPacket) {
+		if b := tools.Int8ToByte(req.SBuffer); len(b) == 8 {
+			idMu.Lock()
+			idOf[binary.BigEndian.Uint64(b)] = req.IRequestId
+			idMu.Unlock()
+		}
+	})
+	defer c08SetHook(obj, nil)
+	type rq struct {
+		id   int32
+		pay  []byte
+		conn net.Conn
+	}
+	reqCh := make(chan rq, 4*c.N+8)
+	var running int32 // callers still making calls
+	var conns []net.Conn
+	var cmu sync.Mutex
+	go func() {
+		for {
+			conn, err := ln.Accept()
+			if err != nil {
+				return
+			}
+			cmu.Lock()
+			conns = append(conns, conn)
+			cmu.Unlock()
+			go func(conn net.Conn) {
+				for {
+					req, err := c08ReadRequest(conn)
+					if err != nil {
+						return
+					}
+					if b := tools.Int8ToByte(req.SBuffer); len(b) == 8 {
+						reqCh <- rq{req.IRequestId, b, conn}
+					}
+				}
+			}(conn)
+		}
+	}()
+	defer func() {
+		cmu.Lock()
+		for _, cn := range conns {
+			cn.Close()
+		}
+		cmu.Unlock()
+	}()
+	stop := make(chan struct{})
+	var srv sync.WaitGroup
+	srv.Add(1)
+	go func() { // the batching peer
+		defer srv.Done()
+		var batch []rq
+		flush := func() {
+			per := map[net.Conn][]byte{}
+			for _, r := range batch {
+				per[r.conn] = append(per[r.conn], c08EncodeResponse(r.id, basef.TARSNORMAL, r.pay)...)
+			}
+			for conn, buf := range per {
+				conn.SetWriteDeadline(time.Now().Add(5 * time.Second))
+				conn.Write(buf)
+			}
+			batch = batch[:0]
+		}
+		for {
+			var idle <-chan time.Time
+			if len(batch) > 0 {
+				idle = time.After(3 * time.Millisecond) // a caller fell behind: do not keep the others waiting
+			}
+			select {
+			case r := <-reqCh:
+				batch = append(batch, r)
+				if n := int(atomic.LoadInt32(&running)); len(batch) >= n || len(batch) >= c.N {
+					flush()
+				}
+			case <-idle:
+				flush()
+			case <-stop:
+				return
+			}
+		}
+	}()
+	call := func(w, i int) (bad string) {
+		ctx, cancel := context.WithTimeout(context.Background(), c08Patience)
+		defer cancel()
+		pay := c08Payload(uint32(w), uint32(i))
+		var resp requestf.ResponsePacket
+		if err := sp.TarsInvoke(ctx, 0, "echo", pay, nil, nil, &resp); err != nil {
+			return fmt.Sprintf("matching-reply-not-delivered|caller %d call %d: the peer answers every request at once, the call ended with an error (%d s deadline)", w, i, int(c08Patience/time.Second))
+		}
+		want := binary.BigEndian.Uint64(pay)
+		idMu.Lock()
+		id := idOf[want]
+		idMu.Unlock()
+		b := tools.Int8ToByte(resp.SBuffer)
+		if len(b) != 8 || binary.BigEndian.Uint64(b) != want {
+			return fmt.Sprintf("foreign-reply-delivered|caller %d call %d (request id %d, payload %016x) came back with payload %x: the response of another call on the same adapter", w, i, id, want, b)
+		}
+		if resp.IRequestId != id {
+			return fmt.Sprintf("response-id-differs-from-request-id|caller %d call %d was given request id %d and came back with a response carrying id %d", w, i, id, resp.IRequestId)
+		}
+		return ""
+	}
+	atomic.StoreInt32(&running, 1)
+	var fs []Failure
+	seenSig := map[string]int{}
+	var fmu sync.Mutex
+	note := func(bad string) {
+		if bad == "" {
+			return
+		}
+		kv := strings.SplitN(bad, "|", 2)
+		fmu.Lock()
+		seenSig[kv[0]]++
+		if seenSig[kv[0]] == 1 {
+			fs = append(fs, Failure{Sig: "burst/" + kv[0], Desc: kv[1]})
+		}
+		fmu.Unlock()
+	}
+	note(call(c.N, 0)) // warm-up: the adapter and its connection exist before the callers start
+	atomic.StoreInt32(&running, int32(c.N))
+	var wg sync.WaitGroup
+	start := make(chan struct{})
+	for w := 0; w < c.N; w++ {
+		wg.Add(1)
+		go func(w int) {
+			defer wg.Done()
+			defer atomic.AddInt32(&running, -1)
+			<-start
+			for i := 1; i <= c.Calls; i++ {
+				note(call(w, i))
+			}
+		}(w)
+	}
+	close(start)
+	wg.Wait()
+	close(stop)
+	srv.Wait()
+	for sig, n := range seenSig {
+		for i := range fs {
+			if fs[i].Sig == "burst/"+sig {
+				fs[i].Desc += fmt.Sprintf(" [%d of %d calls]", n, c.N*c.Calls)
+			}
+		}
+	}
+	if ids := tars.VerifC08PendingIDs(sp); len(ids) != 0 {
+		fs = append(fs, Failure{Sig: "call/pending-entry-left", Desc: fmt.Sprintf("burst scenario: the pending-reply table still holds ids %v", ids)})
+	}
+	return fs
+}
+
 // c08Labels turns the event log into a tagged label sequence of the product of Conc/Pending.v machines (one per
 // connection the server accepted, plus one for callers whose request never arrived) and the per-connection, per-call
 // observed outcomes (calls numbered in registration order on their connection). Internal steps (lookup, hand-over,
@@ -1356,7 +1562,7 @@ func c08Coq(c *c08Case) string {
 		return ""
 	}
 	switch c.Kind {
-	case "mtbig":
+	case "mtbig", "burst":
 		return ""
 	case "wrap":
 		if len(c.IDs) != 3 || len(c.WrapServed) != 2 {
@@ -1395,7 +1601,13 @@ func c08Coq(c *c08Case) string {
 			ctrs = append(ctrs, e.Ctr)
 		}
 	}
-	return fmt.Sprintf("KTrace ((%d%%nat, %s, %s, %s, %s, ([%s], [%s])), %s, %s, %s)", nad, ls, outs, snaps, c08Zs(c.Pending), strings.Join(pads, "; "), strings.Join(pushes, "; "), c08Zs(c.Wire), pings, c08Zs(ctrs))
+	var regs []string // (id, counter reading after the draw) of every call and ping
+	for _, e := range c.Events {
+		if e.Kind == "reg" || e.Kind == "ping" {
+			regs = append(regs, fmt.Sprintf("((%d)%%Z, (%d)%%Z)", e.ID, e.Ctr))
+		}
+	}
+	return fmt.Sprintf("KTrace ((%d%%nat, %s, %s, %s, %s, ([%s], [%s])), %s, %s, %s, ((%d)%%Z, [%s]))", nad, ls, outs, snaps, c08Zs(c.Pending), strings.Join(pads, "; "), strings.Join(pushes, "; "), c08Zs(c.Wire), pings, c08Zs(ctrs), c.C0, strings.Join(regs, "; "))
 }
 
 func c08Gen(tier string, rng *rand.Rand) []c08Case {
@@ -1479,6 +1691,7 @@ func c08Gen(tier string, rng *rand.Rand) []c08Case {
 			c.Proxies = 1
 		}
 		c.Push = si%3 == 1
+		c.Opts = si%2 == 1
 		if si%2 == 0 {
 			c.Pings = 1 + rng.Intn(3)
 		}
@@ -1527,7 +1740,7 @@ func c08Gen(tier string, rng *rand.Rand) []c08Case {
 			ks = append(ks, a)
 		}
 		sort.Strings(ks)
-		c.Class = fmt.Sprintf("trace/n%d/r%d/p%d/g%d/push%v/ping%d%v/ids%d/%s", n, c.Rounds, c.Proxies, c.Procs, c.Push, c.Pings, c.PingAt, si%4, strings.Join(ks, "+"))
+		c.Class = fmt.Sprintf("trace/n%d/r%d/p%d/g%d/push%v/ping%d%v/opts%v/ids%d/%s", n, c.Rounds, c.Proxies, c.Procs, c.Push, c.Pings, c.PingAt, c.Opts, si%4, strings.Join(ks, "+"))
 		cs = append(cs, c)
 	}
 	// answered-then-call-again chains: every caller gets five replies at once and immediately calls again, three rounds
@@ -1555,6 +1768,20 @@ func c08Gen(tier string, rng *rand.Rand) []c08Case {
 		c.Class = fmt.Sprintf("trace-dupchain/n%d/p%d/g%d", n, c.Proxies, c.Procs)
 		cs = append(cs, c)
 	}
+	// high-contention bursts: W callers in lock step on one adapter, every batch of W replies in one write
+	nb := 3
+	if tier == "thorough" {
+		nb = 12
+	}
+	for i := 0; i < nb; i++ {
+		w := []int{32, 32, 64, 16, 48, 32}[i%6]
+		c := c08Case{Kind: "burst", N: w, Calls: 4000 / w * 2, Class: fmt.Sprintf("burst/w%d", w)}
+		if tier == "thorough" {
+			c.Procs = []int{0, 4, 16, 2}[i%4]
+			c.Class += fmt.Sprintf("/g%d", c.Procs)
+		}
+		cs = append(cs, c)
+	}
 	// rejected calls interleaved with outstanding ones: more concurrent callers than ObjQueueMax admits ('invoke queue is
 	// full', whoever comes late) and callers on a proxy without a selectable endpoint ('no adapter Proxy selected'); a
 	// rejected call has drawn an id — it is never handed back
@@ -1564,7 +1791,7 @@ func c08Gen(tier string, rng *rand.Rand) []c08Case {
 	}
 	for i := 0; i < nrj; i++ {
 		n := []int{16, 32, 8, 64, 24, 12}[i%6]
-		c := c08Case{Kind: "trace", N: n, Rounds: 2, Proxies: 1 + i%2, TimeoutMs: 150 + rng.Intn(150), QueueMax: 1 + rng.Intn(n/4+1), Follow: true, Pings: i % 2}
+		c := c08Case{Kind: "trace", N: n, Rounds: 2, Proxies: 1 + i%2, TimeoutMs: 150 + rng.Intn(150), QueueMax: 1 + rng.Intn(n/4+1), Follow: true, Pings: i % 2, Opts: i%2 == 0}
 		if tier == "thorough" {
 			c.Procs = []int{0, 2, 4, 1}[i%4]
 		}
@@ -1601,7 +1828,7 @@ func c08Gen(tier string, rng *rand.Rand) []c08Case {
 	for i := 0; i < nf; i++ {
 		for _, mode := range []string{"prepost", "cf", "mw"} {
 			n := []int{4, 8, 16, 32}[rng.Intn(4)]
-			c := c08Case{Kind: "trace", N: n, Rounds: 1 + rng.Intn(2), Proxies: 1 + rng.Intn(2), TimeoutMs: 150 + rng.Intn(200), Filters: mode, Push: rng.Intn(2) == 0, Follow: true, Pings: rng.Intn(3), PingAt: rng.Intn(2) == 0}
+			c := c08Case{Kind: "trace", N: n, Rounds: 1 + rng.Intn(2), Proxies: 1 + rng.Intn(2), TimeoutMs: 150 + rng.Intn(200), Filters: mode, Push: rng.Intn(2) == 0, Follow: true, Pings: rng.Intn(3), PingAt: rng.Intn(2) == 0, Opts: rng.Intn(2) == 0}
 			used := map[string]bool{}
 			for k := 0; k < n*c.Rounds; k++ {
 				a := fkinds[rng.Intn(len(fkinds))]
@@ -1648,7 +1875,7 @@ func init() {
 			ID: "C08", Require: "From TarsV Require Import Base.Hex Rpc.ReqId Conc.Pending Conc.C08Corr.", CaseType: "c08_case",
 			Mismatch: "failing_from c08_check",
 			Corr:     "C08Corr.c08_check (gen_seq = real genRequestID from a set counter; concurrent batches within the theorems' conclusions; maccepts = the recorded trace, per connection, is a good run of the product of pending-table machines with the observed outcomes, table snapshots and empty tables at the end; wrap witness = the theorem's prediction)",
-			Rule:     "genRequestID: counter set to 0/maxInt32/minInt32 +-4, 2^30, random, then 1-7 calls single-threaded (exact vs gen_seq); 2-32 threads x 4-33 calls straddling 0, maxInt32, minInt32 (non-zero, distinct, reachable window, in Coq); 4-32 threads x 20000-40000 calls (monitor: non-zero, distinct, no lost increment). Scripted raw TCP server: N in {1,2,4,8,16,32,64,128,256} concurrent callers spread over 1-2 ServantProxy objects (own adapter and connection each), 1-3 rounds on the same connections, per caller one of reply / three replies / no reply / reply after the caller left / caller's context cancelled (plain, or under a distant deadline) while the request is in flight / forged id 0 / forged unknown ids / one-way typed packet with the right id / id of a completed call / right id on another connection / one-way call (echoed by the peer under its id) / call failing in doInvoke (refused endpoint); answered callers call again at once (follow-up); dup-chain scenarios (3x8 replies per call); client-filter scenarios in child processes (pass-through pre+post filters, client filter, middleware); ids of all requests received by the server non-zero and distinct; server handling order a random permutation per round; request ids positioned to cross 0, the wrap threshold, or be negative; GOMAXPROCS 1,2,4,16 in thorough; table snapshot while the round is outstanding. Thorough: full-cycle wrap witness (2^31 allocations). class = (kind, counter zone, threads | N, rounds, proxies, GOMAXPROCS, id zone, set of acts)",
+			Rule:     "genRequestID: counter set to 0/maxInt32/minInt32 +-4, 2^30, random, then 1-7 calls single-threaded (exact vs gen_seq); 2-32 threads x 4-33 calls straddling 0, maxInt32, minInt32 (non-zero, distinct, reachable window, in Coq); 4-32 threads x 20000-40000 calls (monitor: non-zero, distinct, no lost increment). Scripted raw TCP server: N in {1,2,4,8,16,32,64,128,256} concurrent callers spread over 1-2 ServantProxy objects (own adapter and connection each), 1-3 rounds on the same connections, per caller one of reply / three replies / no reply / reply after the caller left / caller's context cancelled (plain, or under a distant deadline) while the request is in flight / forged id 0 / forged unknown ids / one-way typed packet with the right id / id of a completed call / right id on another connection / one-way call (echoed by the peer under its id) / call failing in doInvoke (refused endpoint); answered callers call again at once (follow-up); dup-chain scenarios (3x8 replies per call); client-filter scenarios in child processes (pass-through pre+post filters, client filter, middleware); ids of all requests received by the server non-zero and distinct; server handling order a random permutation per round; request ids positioned to cross 0, the wrap threshold, or be negative; GOMAXPROCS 1,2,4,16 in thorough; table snapshot while the round is outstanding. Burst: 16-64 callers in lock step on one adapter, ~8000 calls, every batch of replies in one write (monitor: own id and payload). Thorough: full-cycle wrap witness (2^31 allocations). class = (kind, counter zone, threads | N, rounds, proxies, GOMAXPROCS, id zone, set of acts)",
 			Shard:    4,
 			Workers:  1,
 			Gen:      c08Gen,
@@ -1661,7 +1888,9 @@ func init() {
 						cs[i].Skipped = true
 						continue
 					}
-					if cs[i].Kind == "wrap" {
+					if cs[i].Kind == "burst" {
+						fails[i] = c08RunBurst(&cs[i])
+					} else if cs[i].Kind == "wrap" {
 						fails[i] = c08RunWrap(&cs[i])
 					} else if os.Getenv("C08_TIMING") != "" && cs[i].Kind == "trace" && cs[i].Filters == "" {
 						t0 := time.Now()
